@@ -2,12 +2,14 @@ package props
 
 import (
 	"fmt"
+	"reflect"
 
 	"github.com/ipld/go-ipld-prime/datamodel"
 	"github.com/ipld/go-ipld-prime/node/bindnode"
 	"github.com/ipld/go-ipld-prime/schema"
 
 	"verif/lib/fw"
+	"verif/lib/gobind"
 	"verif/lib/model"
 	rs "verif/lib/ref/schema"
 	"verif/lib/schemagen"
@@ -19,13 +21,31 @@ type bindEngine struct {
 	lib    *schema.TypeSystem
 	protos map[string]schema.TypedPrototype
 	failed map[string]string
+	// shape, when set, supplies user-side Go types (drawn by reflection over the documented shapes:
+	// pointer vs bare nilable, **T, the three link types, int vs int64) instead of letting bindnode infer them.
+	shape *gobind.Shape
+	ts    *rs.TypeSystem
+}
+
+// newShapedBindEngine binds with user-supplied Go types.
+func newShapedBindEngine(lib *schema.TypeSystem, ts *rs.TypeSystem, rng *fw.RNG) *bindEngine {
+	e := newBindEngine(lib)
+	e.shape = gobind.NewShape(ts, rng.Fork())
+	e.shape.WideScalars = true
+	e.ts = ts
+	return e
 }
 
 func newBindEngine(lib *schema.TypeSystem) *bindEngine {
 	return &bindEngine{lib: lib, protos: map[string]schema.TypedPrototype{}, failed: map[string]string{}}
 }
 
-func (e *bindEngine) Name() string { return "bindnode" }
+func (e *bindEngine) Name() string {
+	if e.shape != nil {
+		return "bindnode-usertypes"
+	}
+	return "bindnode"
+}
 
 func (e *bindEngine) Proto(name string) (datamodel.NodePrototype, datamodel.NodePrototype) {
 	if _, bad := e.failed[name]; bad {
@@ -39,7 +59,12 @@ func (e *bindEngine) Proto(name string) (datamodel.NodePrototype, datamodel.Node
 					e.failed[name] = fmt.Sprint(r)
 				}
 			}()
-			p = bindnode.Prototype(nil, e.lib.TypeByName(name))
+			if e.shape != nil {
+				g := e.shape.GoType(e.ts.T(name))
+				p = bindnode.Prototype(reflect.Zero(reflect.PointerTo(g)).Interface(), e.lib.TypeByName(name))
+			} else {
+				p = bindnode.Prototype(nil, e.lib.TypeByName(name))
+			}
 			e.protos[name] = p
 		}()
 		if p == nil {
@@ -91,8 +116,14 @@ func (c08) RunCase(c *fw.Ctx, rng *fw.RNG, batch, i int) {
 	}
 	c.Count("type_systems", 1)
 	eng := newBindEngine(lib)
+	if rng.Chance(1, 3) {
+		eng = newShapedBindEngine(lib, ts, rng)
+		c.Count("type_systems_with_user_go_types", 1)
+	}
 	var cur string
-	c.SetCase(func() any { return map[string]any{"type_system": schemagen.Describe(ts), "current": cur} })
+	c.SetCase(func() any {
+		return map[string]any{"type_system": schemagen.Describe(ts), "engine": eng.Name(), "go_types": eng.goTypes(), "current": cur}
+	})
 	for _, t := range ts.Types {
 		if t.Name[0] != 'T' {
 			continue
@@ -116,4 +147,19 @@ func (c08) RunCase(c *fw.Ctx, rng *fw.RNG, batch, i int) {
 		c.Deviate("C08:bindnode-cannot-bind:"+typeKindName(ts.T(name))+":"+errClass(fmt.Errorf("%s", why)), fmt.Sprintf("bindnode.Prototype(nil, %s) panicked: %s\n%s", name, clipS(why, 300), schemagen.Describe(ts)))
 	}
 	_ = model.Null
+}
+
+// goTypes describes the user-side Go types drawn so far (for replay files).
+func (e *bindEngine) goTypes() map[string]string {
+	if e.shape == nil {
+		return nil
+	}
+	out := map[string]string{}
+	for name := range e.protos {
+		func() {
+			defer func() { recover() }()
+			out[name] = clipS(e.shape.GoType(e.ts.T(name)).String(), 600)
+		}()
+	}
+	return out
 }
